@@ -32,6 +32,8 @@ def op_universe():
     for n in NAMES[:3] + ['other']:
         for kind in ('instance', 'factory'):
             ops.append(('register_language', n, PATTERNS[NAMES.index(n) % 3], kind))
+    # a language registered without a file pattern (the default): found by name, never by file name
+    ops.append(('register_language', 'nopat', None, 'instance'))
     for n in ('lng', 'LNG', 'other', 'nope'):
         ops.append(('language_description', n))
         ops.append(('metamodel_for_language', n, False))
